@@ -36,8 +36,8 @@ Definition tab_caps (l : option bytes) (starttls : bool) : list bytes :=
    STARTTLS is sent, the handshake only after a 220 or with implicit TLS *)
 Definition tab_behaviours : list (bool * decision * hs_oracle) :=
   [(false, DOk, HsOk); (true, DOk, HsOk); (true, DOk, HsFail); (true, DOk, HsStall);
-   (true, DReply 454 false, HsOk); (true, DReply 554 false, HsOk); (true, DReply 0 false, HsOk)].
-Definition tab_auth_dec : list decision := [DOk; DReply 535 false].
+   (true, DReply 454 TxPlain, HsOk); (true, DReply 554 TxPlain, HsOk); (true, DReply 0 TxPlain, HsOk)].
+Definition tab_auth_dec : list decision := [DOk; DReply 535 TxPlain].
 
 Definition tab_rows : list (config * srv) :=
   flat_map (fun a =>
